@@ -52,6 +52,10 @@ REG.bounded_check("C02.narrowing_programs", ["C02"], "C02.programs",
                           "FunctionScope._add_composite / set (nested composites reset by an assignment to an ancestor)", "value._unpack_sequence_value through assignments"],
                   bound="6 programs x 3-5 argument tuples, executed under CPython with every evaluated node instrumented: in each branch the runtime value of the narrowed variable belongs "
                         "to the type it is narrowed to there (arguments equal to a literal of another type, 1 == True, are known finding D54 and kept out)")
+REG.bounded_check("C11.error_code_layers", ["C11"], "C11.layers",
+                  covers=["NameCheckVisitor.prepare_constructor_kwargs (the -e/-d `settings` loop)", "options._parse_config_section (disable_all, overrides)", "Options.is_error_code_enabled", "options.parse_config_file (inclusion cycles)"],
+                  bound="2 x 2 config files (top-level value, override for module a, disable_all override for module b) x 4 command-line settings x 5 module paths x 2 error codes: "
+                        "enabled == command line, else disable_all / override of the module, else top level, else default; extend_config cycles through 2 and 3 files are InvalidConfigOption")
 REG.bounded_check("C10.determinism", ["C10"], "C10.bounded",
                   covers=["the whole checker on the corpus: union member order, listed names, message text"],
                   bound="15 source files (format mapping keys, unexpected keywords, or/and narrowing, `in` narrowing, unused variables, branch unions, protocols, overloads, try/with definitions, nested functions, stdlib calls, iterator classes) x PYTHONHASHSEED in {0,1,2,3,5,7} (thorough: 0..15) in fresh subprocesses (full rendered messages compared); two check orders in one process; one Checker shared by all files (both orders) against the fresh-Checker baseline; 2 non-importable scripts checked without a module object, alone and after each other; module-name tokens normalised")
@@ -97,3 +101,28 @@ REG.bounded_check("C12.totality", ["C12"], "C12.bounded",
                   bound="120 (quick) / 600 (thorough) modules of 3-8 functions drawn from 118 statement templates and 57 odd annotation texts in 5 positions (string annotations on variables, parameters, returns, cast) (wrong arities, bad operands, undefined names, odd annotations, decorators, classes, comprehensions, lambdas, "
                         "star-expressions, f-strings, walrus, match, async), all error codes enabled as in the project's tests: no exception, no internal_error, registered code, line inside the file, column inside the line, "
                         "non-empty message; 44 x 44 pairs of Values (every Value class, TypeVars, empty / nested shapes, literal unions of >= 10 members against unhashable literals): the value API returns")
+
+# additions of the third wave of seeded changes (kept apart so that the texts above stay as they were reviewed)
+_EXTRA = {
+    "C03.literal_membership": "; wave 3: + unions of >= 10 literal arms with a non-literal arm (unhashable objects), TypedDicts with Optional / NotRequired values against dicts holding None, type / ABCMeta / a Thrift-style enum class, class objects as values (46 objects x 57 types)",
+    "C04.type_pairs": "; wave 3: the same extended universe (57 x 57 types), + a generic protocol asked with two instantiations in both orders on one checker (was known finding D22), leniency L3 (bare `type` read as type[Any])",
+    "C05.binding": "; wave 3: + 9 calls to nested defs that shadow module-level functions and 40 calls to (inherited) static / class / instance methods through an instance and through the class, compared with executing the call",
+    "C06.calls": "; wave 3: + 9 calls mixing explicit keywords with a **mapping against a typed **kwargs, 5 calls solving a bound TypeVar from callback parameters only",
+    "C07.shape_inclusion": "; wave 3: + 17 calls through the checker: a protocol inheriting members from another protocol, a callback protocol and Callable[[int], None] against module-level defs, nested defs and lambdas with and without positional-only parameters",
+    "C08.reference_resolver": "; wave 3: + an `object` overload before a `str` overload with an Any argument, overloads whose default does not fit its annotation called with an explicit equal literal (None, ...)",
+    "C09.sandwich": "; wave 3: with statements now carry 1-2 items (suppressing cm(), non-suppressing plain(), in both orders) in the structured (118 skeletons) and random families; an explicit raise inside a suppressing with certainly continues after it (strict bound)",
+    "C10.determinism": "; wave 3: + a_abs.py / b_abs.py (a cached generic-protocol bounds map must not be extended by later checks), the generic-protocol instantiation order scenario (was D22)",
+    "C12.totality": "; wave 3: + every annotation text (57 odd ones, 17 special forms subscripted with (), 6 mistakes nested inside a subscript) as a string annotation in each of the 5 positions, systematically; literals whose == raises or has no truth value in the value universe",
+    "C13.two_routes": "; wave 3: + collections.abc.Callable[[int], str] quoted / plain / typing.Callable on both routes, methods of a class nested in a class (unannotated self)",
+    "C14.union_and_substitution_laws": "; wave 3: + equal values hash equal and merge (TypedDicts with reordered keys), TypedDicts whose extra_keys mention type variables among the open values",
+    "C15.solutions": "; wave 3: + 10 calls: a conflict on one type variable next to another type variable in both argument orders, bounds collected from non-last tuple members, Type[T] with a declared bound / constraints",
+    "C16.step_and_autofix": "; wave 3: + 4 programs (positional-to-keyword rewrite of calls with keywords and **mapping; unused ignore comments after code and on their own line)",
+    "C17.percent_and_str_format": "; wave 3: + 10 template/argument pairs as a binary % expression and as the augmented assignment s %= args through the checker",
+    "C18.layering": "; wave 3: + error-code options: 4 config files x 4 command-line -e/-d settings x 5 module paths x 2 codes (override, disable_all), extend_config cycles through 2 and 3 files",
+    "C20.reference_denotation": "; wave 3: + 4 bodies whose `and` tests the same parameter twice, is_of_type against a union type (Literal['r', 'w']) with an Any argument under exclude_any True / False",
+    "C01.instrumented_execution": "; wave 3: + the 6 narrowing programs of C02.narrowing_programs",
+}
+for _bc in REG.bounded_checks:
+    if _bc["name"] in _EXTRA:
+        _bc["bound"] += _EXTRA[_bc["name"]]
+assert not set(_EXTRA) - {b["name"] for b in REG.bounded_checks}, set(_EXTRA) - {b["name"] for b in REG.bounded_checks}
